@@ -199,7 +199,13 @@ def run_mir(res, prop, tier, seed):
                 runs.append(dict(scn=scn2, spec=spec, hyps=hyps, arms=arms, panics=panics, flag=flag, qa=qa))
                 allq += [q for q, _ in qa]
     res.extra["mir_exec_s"] = round(time.time() - t0, 2)
-    run_queries(allq)
+    # interleave the scenarios so that a time budget touches all of them; on a tree that breaks the property most
+    # undecided queries run into their cap, and the quick tier must still end
+    order_ = list(allq)
+    __import__("random").Random(seed).shuffle(order_)
+    run_queries(order_, deadline=time.time() + (420 if tier == "quick" else 5400))
+    res.extra["mir_queries"] = len(allq)
+    res.extra["mir_queries_not_started"] = sum(1 for q_ in allq if "budget" in str(getattr(q_, "raw", "")))
     for r in runs:
         scn, spec, flag, qa = r["scn"], r["spec"], r["flag"], r["qa"]
         desc = {"A": "draws = the real generator's stream for seed %d; step size, temperatures%s symbolic" % (scn["seed"], ", ranges" if scn["sym_range"] else ""),
